@@ -23,6 +23,7 @@ Outside the model: `refresh()` / the info channel (CHAN_INFO) and the 1-wire/I2C
 -/
 import CfVerif.Base.Struct
 import CfVerif.Gen.C06
+import CfVerif.Model.C07
 namespace CfVerif.C06
 open CfVerif
 
@@ -903,5 +904,149 @@ def cexecAll (cv : ConcVariant) : CState → List CAct → Option (CState × Lis
       match cexecAll cv c1 as with
       | none => none
       | some (c2, o2, l2) => some (c2, o1 ++ o2, l1 ++ l2)
+
+/-! ### who is told: the notification `Caller`s (cflib/utils/callbacks.py) and their subscribers
+
+`Memory` announces the end of a request through four `Caller` objects (`mem_read_cb`, `mem_read_failed_cb`,
+`mem_write_cb`, `mem_write_failed_cb`); the `Out` notifications above are the CALLS of `Caller.call`.  Here: what the
+subscribers see.  A subscriber is a number; when told it may subscribe / unsubscribe anybody (itself included) on any
+of the four Callers (`SubAct`; what it does may depend on everything it and the others were told so far: `SBeh`).
+`add_callback` / `remove_callback` are C07's `callerAdd` / `callerRemove` (an unsubscribe of somebody who is not
+subscribed is written as a guarded removal, so subscribers never raise - assumption of the whole package).
+`Caller.call`: over a copy of the list (`CallerVariant.copies`, Tie A `callerCallCopies`) or over the live list (the
+list iterator is an index that re-reads the list after every callback).  `_clear_state()` on a link loss creates new
+`Caller` objects: nobody is subscribed afterwards (Tie A `clearStateCallers`). -/
+
+inductive NKind
+  | rOk | rFail | wOk | wFail
+  deriving DecidableEq, Repr
+
+def Out.kind? : Out → Option NKind
+  | .readOk .. => some .rOk
+  | .readFail .. => some .rFail
+  | .writeOk .. => some .wOk
+  | .writeFail .. => some .wFail
+  | _ => none
+
+/-- `callbacks` of the four Callers, in registration order -/
+structure Subs where
+  rOk : List Nat
+  rFail : List Nat
+  wOk : List Nat
+  wFail : List Nat
+  deriving DecidableEq, Repr
+
+def Subs.none : Subs := ⟨[], [], [], []⟩
+
+def Subs.get (s : Subs) : NKind → List Nat
+  | .rOk => s.rOk
+  | .rFail => s.rFail
+  | .wOk => s.wOk
+  | .wFail => s.wFail
+
+def Subs.set (s : Subs) (k : NKind) (l : List Nat) : Subs :=
+  match k with
+  | .rOk => { s with rOk := l }
+  | .rFail => { s with rFail := l }
+  | .wOk => { s with wOk := l }
+  | .wFail => { s with wFail := l }
+
+inductive SubAct
+  /-- `caller.add_callback(cb)` -/
+  | add (k : NKind) (c : Nat)
+  /-- `if cb in caller.callbacks: caller.remove_callback(cb)` -/
+  | remove (k : NKind) (c : Nat)
+  deriving DecidableEq, Repr
+
+def runSubAct (s : Subs) : SubAct → Subs
+  | .add k c => s.set k (C07.callerAdd (s.get k) c)
+  | .remove k c => s.set k ((C07.callerRemove (s.get k) c).getD (s.get k))
+
+def runSubActs (s : Subs) (as : List SubAct) : Subs := as.foldl runSubAct s
+
+/-- who was told what, chronologically -/
+abbrev Told := List (Nat × Out)
+
+/-- behaviour of all subscribers: what subscriber `c` does when told `o`; the first argument is everything told so far,
+this invocation included (last) -/
+abbrev SBeh := Told → Nat → Out → List SubAct
+
+structure Fan where
+  subs : Subs
+  told : Told
+  /-- ghost: for every notification, the subscribers registered when `Caller.call` was entered -/
+  due : Told
+  deriving DecidableEq, Repr
+
+def Fan.init : Fan := ⟨Subs.none, [], []⟩
+
+structure CallerVariant where
+  copies : Bool
+  /-- bound of the live walk (subscribers that keep subscribing new ones would be walked for ever) -/
+  liveFuel : Nat := 10000
+  deriving DecidableEq, Repr
+
+def CallerVariant.code : CallerVariant := { copies := Gen.C06.callerCallCopies }
+def CallerVariant.fixed : CallerVariant := { copies := true }
+
+/-- `for cb in copy_of_callbacks: cb(*args)` -/
+def fanSnap (beh : SBeh) (o : Out) : List Nat → Fan → Fan
+  | [], f => f
+  | c :: cs, f =>
+    let told := f.told ++ [(c, o)]
+    fanSnap beh o cs { f with subs := runSubActs f.subs (beh told c o), told := told }
+
+/-- `for cb in self.callbacks: cb(*args)` -/
+def fanLive (beh : SBeh) (o : Out) (k : NKind) : Nat → Nat → Fan → Fan
+  | 0, _, f => f
+  | fuel + 1, i, f =>
+    match (f.subs.get k)[i]? with
+    | none => f
+    | some c =>
+      let told := f.told ++ [(c, o)]
+      fanLive beh o k fuel (i + 1) { f with subs := runSubActs f.subs (beh told c o), told := told }
+
+/-- `Caller.call` for one notification -/
+def callerCall (cv : CallerVariant) (beh : SBeh) (o : Out) (f : Fan) : Fan :=
+  match o.kind? with
+  | none => f
+  | some k =>
+    let f1 := { f with due := f.due ++ (f.subs.get k).map fun c => (c, o) }
+    if cv.copies then fanSnap beh o (f1.subs.get k) f1 else fanLive beh o k cv.liveFuel 0 f1
+
+/-- the notifications of one event, in order -/
+def notifyAll (cv : CallerVariant) (beh : SBeh) (outs : List Out) (f : Fan) : Fan :=
+  outs.foldl (fun f o => callerCall cv beh o f) f
+
+inductive FEv
+  | mem (e : Ev)
+  /-- the application subscribes / unsubscribes between two events -/
+  | sub (a : SubAct)
+  deriving DecidableEq, Repr
+
+structure FSt where
+  s : St
+  f : Fan
+  deriving DecidableEq, Repr
+
+def FSt.init : FSt := ⟨St.init, Fan.init⟩
+
+def fstep (cv : CallerVariant) (beh : SBeh) (x : FSt) : FEv → FSt × Step
+  | .sub a => (⟨x.s, { x.f with subs := runSubAct x.f.subs a }⟩, ⟨x.s, [], .ret none⟩)
+  | .mem e =>
+    let r := step Variant.fixed x.s e
+    let f1 := notifyAll cv beh r.outs x.f
+    -- `_disconnected` = `_call_all_failed_callbacks(); _clear_state()`: new Caller objects
+    let f2 := match e with
+      | .disconnect => { f1 with subs := Subs.none }
+      | _ => f1
+    (⟨r.st, f2⟩, r)
+
+def frun (cv : CallerVariant) (beh : SBeh) : FSt → List FEv → FSt × List Out
+  | x, [] => (x, [])
+  | x, e :: es =>
+    let r := fstep cv beh x e
+    let rest := frun cv beh r.1 es
+    (rest.1, r.2.outs ++ rest.2)
 
 end CfVerif.C06
